@@ -78,29 +78,40 @@ impl SerdeParser {
     /// Parse rename_all value like "camelCase", "snake_case", "PascalCase", etc. to
     /// find a matching `serde_rename_rule::RenameRule`.
     fn parse_rename_all(&self, tokens: &str) -> Option<RenameRule> {
+        // The item name is looked up outside string literals (tag = "rename_all" is no
+        // rename_all); the masked copy keeps the byte offsets of the original text
+        let masked = super::validator_parser::mask_string_literals(tokens);
+        let is_ident = |c: char| c.is_alphanumeric() || c == '_';
         // The item must be `rename_all` itself, not a longer name such as `rename_all_fields`
-        let start = tokens
+        let start = masked
             .match_indices("rename_all")
             .map(|(pos, _)| pos)
             .find(|pos| {
-                !tokens[pos + "rename_all".len()..]
-                    .starts_with(|c: char| c.is_alphanumeric() || c == '_')
-            });
-        if let Some(start) = start {
-            if let Some(eq_pos) = tokens[start..].find('=') {
-                let after_eq = &tokens[start + eq_pos + 1..].trim_start();
-
-                // Extract value from quotes
-                if let Some(quote_start) = after_eq.find('"') {
-                    if let Some(quote_end) = after_eq[quote_start + 1..].find('"') {
-                        let value = &after_eq[quote_start + 1..quote_start + 1 + quote_end];
-
-                        return RenameRule::from_rename_all_str(value).ok();
-                    }
-                }
-            }
-        }
-        None
+                !masked[..*pos].ends_with(is_ident)
+                    && !masked[pos + "rename_all".len()..].starts_with(is_ident)
+            })?;
+        let after_name = masked[start + "rename_all".len()..].trim_start();
+        // rename_all(serialize = "..", deserialize = ".."): the bindings describe what serde
+        // writes, so the convention is the one of `serialize` (none: names are not changed)
+        let value_start = if after_name.starts_with('(') {
+            let open = masked.len() - after_name.len();
+            let close = masked[open..].find(')').map_or(masked.len(), |p| open + p);
+            let serialize = masked[open..close]
+                .match_indices("serialize")
+                .map(|(p, _)| open + p)
+                .find(|p| !masked[..*p].ends_with(is_ident))?;
+            serialize + "serialize".len()
+        } else {
+            start + "rename_all".len()
+        };
+        let after_eq = tokens[value_start..]
+            .trim_start()
+            .strip_prefix('=')?
+            .trim_start();
+        // Extract value from quotes
+        let value = after_eq.strip_prefix('"')?;
+        let value = &value[..value.find('"')?];
+        RenameRule::from_rename_all_str(value).ok()
     }
 
     /// Parse rename value from field attribute
